@@ -326,7 +326,7 @@ def _p_cse_only():
 
 
 def _p_constprop():
-    pyrtl.passes.constant_propagation(pyrtl.working_block())
+    pyrtl.passes.constant_propagation(pyrtl.working_block(), silence_unexpected_net_warnings=True)
 
 
 def _p_fanout():
@@ -354,7 +354,8 @@ def run_passes(spec, noise, textdir):
             res['pipelines'][pname] = {'outputs': tr, 'fp_after': fingerprint(wb),
                                        'nnets': len(wb.logic)}
         except Exception as e:
-            res['pipelines'][pname] = {'error': '%s: %s' % (type(e).__name__, str(e)[:200])}
+            # the message may name whichever offending net the set iteration met first: compare the class only
+            res['pipelines'][pname] = {'error': type(e).__name__, 'message': str(e)[:200]}
     return res
 
 
